@@ -188,9 +188,63 @@ func ptsEq(pl []byte) bool {
 	return (&format.H264{}).PTSEqualsDTS(&rtp.Packet{Payload: pl})
 }
 
+// lateFlushWitness replays the input of the Coq theorem C07_h264_late_flush_refuted on the
+// implementation: limit 3; an unmarked NALU (ts 9) leaves the frame buffer non-empty; three intact
+// single-NALU access units (ts 10, 20, 30), the third fragmented into 3 FU-A packets.
+func lateFlushWitness(ctx *hx.Ctx) {
+	e, err := Format.NewEncoder(3, 100, 1, 96, 0)
+	if err != nil {
+		return
+	}
+	stream := []*rtp.Packet{{Header: rtp.Header{Version: 2, SequenceNumber: 7, Timestamp: 9}, Payload: []byte{1, 170}}}
+	aus := []codec.Frame{{{1, 171}}, {{1, 172}}, {{1, 173, 174, 175}}}
+	var starts []int
+	for k, au := range aus {
+		ps, err := e.Encode(au)
+		if err != nil {
+			return
+		}
+		starts = append(starts, len(stream))
+		for _, p := range ps {
+			q := *p
+			q.Timestamp = uint32(10 * (k + 1))
+			stream = append(stream, &q)
+		}
+	}
+	d, err := Format.NewDecoder(0)
+	if err != nil {
+		return
+	}
+	ctx.Eval()
+	at := -1
+	var l, o hx.L
+	l.N(2).I(0).I(len(stream))
+	for j, p := range stream {
+		codec.PutPacket(&l, p)
+		q := *p
+		q.Payload = append([]byte(nil), p.Payload...)
+		fr, res := d.Decode(&q)
+		o.I(res)
+		if res == codec.ResFrame {
+			codec.PutFrame(&o, fr)
+			if len(fr) == 1 && len(fr[0]) == 2 && fr[0][1] == 172 {
+				at = j
+			}
+		}
+	}
+	b, sl := codec.Retained(d.Raw())
+	o.I(b).I(sl)
+	ctx.Corr(l.String(), o.String())
+	ctx.Kind("rtph264 late-flush witness")
+	if at > starts[2] {
+		ctx.Failf(-1, "h264-late-timestamp-flush", l.String(), "rtph264: the intact access unit [[1 172]] (predecessor intact) was returned at stream packet %d; the first packet of the following frame is packet %d (a FU-A start fragment, answered 'more packets needed' before the timestamp is compared)", at, starts[2])
+	}
+}
+
 func main() {
 	ctx := hx.Start("h264")
 	defer ctx.Finish()
+	ctx.Sample("rtph264: access units of 1..50 NAL units, sizes at every single/STAP-A/FU-A threshold +-8, limits 3..9000; hostile FU-A/STAP-A/Annex-B grammars; PTSEqualsDTS fuzz")
 	if lines := ctx.ReplayLines(); lines != nil {
 		h26x.Replay(ctx, Format, lines, ptsEq)
 		return
@@ -198,6 +252,7 @@ func main() {
 	switch ctx.Prop {
 	case "C07":
 		ctx.Rule("rtph264: 3-7 valid access units per stream (NALU counts 1..50, sizes at every single/aggregate/fragment threshold +-8, limits 3..9000), each frame's packet group intact or faulted (drop first/last/middle/all, duplicate, swap, shuffle), distinct 32-bit timestamps per frame incl. wrap; non-trivial = distinct (limit, unit sizes, fault pattern)")
+		lateFlushWitness(ctx)
 		h26x.RunC07(ctx, Format, ctx.Budget(1500, 80000), "h264-late-timestamp-flush")
 	default:
 		Format.Run(ctx)
